@@ -578,7 +578,7 @@ func propTable() map[string]*PropSpec {
 	{
 		mk := func(byz, prefix, timeout, steps, kinds, class, redeliver, recipients int) RunConfig {
 			c := rc(fmt.Sprintf("C01_Run/byz=%d/prefix=%d/timeout=%d/kinds=%0*d/class=%d/redeliver=%d/recipients=%d", byz, prefix, timeout, steps, kinds, class, redeliver, recipients), ".", "C01_Run",
-				map[string]int{"byz": byz, "prefix": prefix, "timeout": timeout, "steps": steps, "kinds": kinds, "class": class, "redeliver": redeliver, "recipients": recipients, "byzvote": 0, "debug": 0})
+				map[string]int{"byz": byz, "prefix": prefix, "timeout": timeout, "steps": steps, "kinds": kinds, "class": class, "redeliver": redeliver, "recipients": recipients, "byzvote": 0, "debug": 0, "weights": 0})
 			c.MaxPaths = 600000
 			return c
 		}
@@ -597,6 +597,13 @@ func propTable() map[string]*PropSpec {
 			dbl,
 			mk(0, 3, 0, 1, 2, 0, 0, 1), // Byzantine first leader equivocated (Y side committed); one symbolic COMMIT to the X side
 		}
+		// deep prefix: weights 1,2,3,4 (Byzantine weight 1), views up to 6; one symbolic proof-carrying vote to
+		// the correct leader of view 6 while the honest votes for that view are in flight
+		deep := mk(0, 4, 5, 1, 4, 0, 0, -1)
+		deep.Name += "/weights=1"
+		deep.Params["weights"] = 1
+		deep.RequireReach = []string{"C01.two_commits"}
+		q = append(q, deep)
 		q[2].RequireReach = []string{"C01.some_commit"}
 		th := append([]RunConfig{}, q...)
 		eq := mk(0, 0, 0, 2, 0, 0, 1, -1) // Byzantine first leader: two proposals to symbolic subsets (class 0: view unrestricted)
@@ -607,6 +614,19 @@ func propTable() map[string]*PropSpec {
 			mk(1, 1, 1, 2, 52, 0, 0, 3), mk(1, 1, 1, 2, 2, 2, 1, 3), mk(3, 2, 1, 2, 52, 0, 0, 3), mk(3, 2, 1, 2, 2, 2, 0, 3),
 			mk(1, 2, 1, 3, 522, 0, 0, 3), mk(1, 2, 1, 3, 122, 0, 0, 3), mk(0, 0, 0, 3, 2, 2, 0, 3), mk(0, 0, 1, 2, 52, 0, 1, 3))
 		th[len(th)-2].Params["kinds"] = 2 // 002
+		for _, t := range []int{1, 2, 4} {
+			d := mk(0, 4, t, 1, 4, 0, 0, -1)
+			d.Name += "/weights=1"
+			d.Params["weights"] = 1
+			th = append(th, d)
+		}
+		for _, k := range []int{5, 6} {
+			d := mk(0, 4, 5, 1, k, 0, 0, -1)
+			d.Name += "/weights=1"
+			d.Params["weights"] = 1
+			th = append(th, d)
+		}
+		th = append(th, mk(0, 4, 5, 3, 412, 0, 0, 3), mk(0, 4, 5, 2, 42, 0, 0, 3))
 		t["C01"] = &PropSpec{ID: "C01", Quick: q, Thorough: th, LabelPrefixes: []string{"C01."},
 			Assumptions: []string{"ideal signature registry with the unforgeability assumption: genuine signatures only under the Byzantine member's and outsiders' keys, byte-exact replays of anything signed earlier in the run allowed", "proposal validation / commitment stubs; committee of 4 equal weights (f=1), one Byzantine member", "honest traffic is flushed FIFO to all correct nodes after each adversarial step; message loss only as listed in the prefixes; optional re-delivery of everything sent so far (delay/duplication)"},
 			Bounds:      []string{"n=4, one Byzantine member (index 1 quick; 0,1,3 thorough); prefixes: nothing / equivocation of a Byzantine first leader with one side committed / all correct nodes locked on the honest view-0 proposal / additionally one correct node committed it with the help of a genuine Byzantine COMMIT, each optionally followed by one or two rounds of election timeouts (the votes of the first being lost); then <=2 (quick) / <=3 (thorough) fully symbolic adversarial multicasts of listed kinds (PREPREPARE, PREPARE, COMMIT, VIEW_CHANGE with/without proof, NEW_VIEW with 3 votes with/without proof) to a fixed or symbolic subset of correct nodes"},
